@@ -419,3 +419,9 @@ package app
 //@   assigns app.ShutterApp.LastSaved, app.CheckTxState.TxCounts, app.CheckTxState.NonceTracker
 //@   ensures app.CheckTxState == old(app.CheckTxState) && app.CheckTxState.Members == old(app.CheckTxState.Members)
 //@   ensures forall a Arr :: (has(app.CheckTxState.Members, a) == old(has(app.CheckTxState.Members, a)) && app.CheckTxState.Members[a] == old(app.CheckTxState.Members[a]))
+//@
+//@ // ---- establishment of the application invariant -----------------------------------------------------------
+//@ // a new application satisfies the invariant every handler requires (one empty placeholder config, empty maps)
+//@ func NewShutterApp
+//@   ensures ret0 != nil && fresh(ret0) && appInv(ret0) && len(ret0.Configs) == 1 && len(ret0.Configs[0].Keypers) == 0 && ret0.EONCounter == 0
+//@   ensures ret0.CheckTxState != nil && ret0.CheckTxState.TxCounts != nil && ntInv(ret0.CheckTxState.NonceTracker)
